@@ -131,6 +131,32 @@ def gen_compiled(rng):
     return hist, c, nt
 
 
+def gen_shared(rng):
+    """facts of DIFFERENT predicates asserted from terms sharing unbound variables; uses of both open at once"""
+    c = {'compiled_histories': 1, 'shared_variable_across_predicates': 1}
+    Vv, Ww = V('Sv'), V('Sw')
+    t1 = rng.choice([C('slot', A('left'), Vv), C('slot', C('f', Vv), Ww), C('slot', Vv, Vv)])
+    t2 = rng.choice([C('owner', Vv, A('nobody')), C('owner', C('g', Vv, Ww), A('x')), C('owner', Ww, Vv)])
+    via_api = rng.random() < 0.4
+    hist = []
+    if via_api:
+        hist += [('assert_fact', t1, True), ('assert_fact', t2, True)]
+    Aa, Bb, Cc, Dd = V('A'), V('B'), V('C'), V('D')
+    uses = [('call', ('c', 'slot', tuple(rng.choice([Aa, Cc, A('left'), C('f', Aa)]) for _ in t1[2]))),
+            ('call', ('c', 'owner', tuple(rng.choice([Bb, Dd, A('nobody'), C('g', Bb, Dd)]) for _ in t2[2])))]
+    if rng.random() < 0.5:
+        uses.reverse()
+    binds = [('call', C('=', Aa, I(1))), ('call', C('=', Bb, I(2)))]
+    rng.shuffle(binds)
+    goals = ([] if via_api else [('call', C('assertz', t1)), ('call', C('assertz', t2))]) + uses + binds[:rng.choice([1, 2])]
+    if rng.random() < 0.3:
+        goals.insert(len(goals) - 1, uses[0])
+    head = C('t', Aa, Bb, Cc, Dd)
+    hist += [('load', [(head, gen.conj(goals))], True), ('run', 't', [V('Q0'), V('Q1'), V('Q2'), V('Q3')], rng.choice([None, 1])),
+             ('dump', [('slot', 2), ('owner', 2)]), ('run', 't', [V('R0'), V('R1'), V('R2'), V('R3')], 1), ('dump', [('slot', 2), ('owner', 2)])]
+    return hist, c, True
+
+
 def gen_api(rng):
     c = {'api_histories': 1}
     tv = [V('T%d' % i) for i in range(1, 4)]
@@ -216,7 +242,10 @@ def judge(ctx, hist, c, nt):
 
 def run_case(ctx, seed, idx, tier):
     rng = random.Random((seed * 1000003 + idx) * 7 + 13)
-    if rng.random() < 0.6:
+    r0 = rng.random()
+    if r0 < 0.12:
+        hist, c, nt = gen_shared(rng)
+    elif r0 < 0.64:
         hist, c, nt = gen_compiled(rng)
     else:
         hist, c, nt = gen_api(rng)
